@@ -24,7 +24,7 @@ package trie
 //@ owns syncMemBatch.batch, syncMemBatch.order by newSyncMemBatch, (*Sync).commit props C19
 // dependency counts are written only by the three registration sites (AddSubTrie, AddRawEntry, Process) and by commit; parent lists only where a
 // request is built (AddSubTrie, AddRawEntry, children) and by schedule (duplicate merge): each of these is under a [deps-track-children] /
-// count clause below (children: construction only, not under contract).
+// count clause below (children: construction only — [child-lists-the-node]).
 //@ owns request.deps by (*Sync).AddSubTrie, (*Sync).AddRawEntry, (*Sync).Process, (*Sync).commit props C19
 //@ owns request.parents by (*Sync).AddSubTrie, (*Sync).AddRawEntry, (*Sync).schedule, (*Sync).children props C19
 
@@ -99,22 +99,37 @@ package trie
 // and it is carried in differential form by the clause [deps-track-children] of AddSubTrie, AddRawEntry, commit (through its recursion) and the
 // state-sync leaf callback (core/state): r.deps - c19Kids[r] is unchanged, for every request r that existed before the call (modulo 2^64, deps
 // being a machine integer); schedule changes no count and registers exactly the listed parents. NOT carried through Process / children: there
-// only the local clauses hold (Process raises the count by exactly the number of children it schedules; that each child built by children lists
-// the node as its one parent is not under contract), see props/C19.json not_decided.
+// only the local clauses hold (Process raises the count by exactly the number of children it schedules; children builds each child request
+// with the node as its one parent and omits a child only if it is locally present), see props/C19.json not_decided.
 //@ ghost var c19Kids: map[Ref]int
 // one more listing for each of the n parents a[lo], …, a[lo+n-1]
 //@ spec rec func c19Bump(m: map[Ref]int, a: seq[Ref], lo: int, n: int) map[Ref]int = if n <= 0 then m else store(c19Bump(m, a, lo, n - 1), a[lo + n - 1], c19Bump(m, a, lo, n - 1)[a[lo + n - 1]] + 1)
 //@ ghost var c19Known: bool
-//@ spec func c19NoParent(h: common.Hash) bool = forall i: int :: { h[i] } h[i] == 0
+//@ ghost var c19Running: *trie.Sync                       // the scheduler whose children() is running (names its `requests` map in the frame of the leaf callback)
+//@ ghost var c19Built: set[common.Hash]               // hashes for which the running children() has built a child request
+
+// The leaf callback (dynamic call in children). TRUSTED frame: it reaches the scheduler only through AddSubTrie / AddRawEntry, i.e. it may change
+// dependency counts, parent lists (duplicate merge), the requests map of the running scheduler, and the accounting ghosts — nothing else that
+// existed before the call (not the membatch, not node bytes, not the caller's locals).
+//@ func dynamic:LeafCallback props C19
+//@ trusted
+//@ modifies all(request.deps), all(request.parents), all(elems(*request)), mapof(c19Running.requests), c19Kids, c19Known
+
+// no parent hash given (the zero hash)
+//@ spec func c19NoParent(h: common.Hash) bool = h == zero(common.Hash)
 // n is o+1 as computed on Go's int (wraps at the maximal int)
-//@ spec func c19Inc(n: int, o: int) bool = n == o + 1 || n == o + 1 - 2^64
+//@ spec func c19Inc(n: int, o: int) bool = n == wrapint(o + 1)
 // h.Bytes() returns a slice of a copy of h: no effect on any modelled object
 //@ effectfree (github.com/youchainhq/go-youchain/common.Hash).Bytes
 
-// reading the database has no effect on the scheduler's objects
+// reading the database has no effect on the scheduler's objects; Has is a function of the database object and the key bytes (c19DBHas,
+// uninterpreted: the database is not written while the scheduler runs — the sync writes through Commit(dbw) only)
+//@ spec func c19DBHas(db: DatabaseReader, a: seq[byte], o: int, n: int) bool
+//@ spec func c19NodeHash(n: node) common.Hash = c19B2H(elems(unbox(n, hashNode)), off(unbox(n, hashNode)), len(unbox(n, hashNode)))
 //@ func (DatabaseReader).Has props C19
 //@ trusted
 //@ modifies nothing
+//@ ensures [repeatable-read] result0 == c19DBHas(recv, elems(key), off(key), len(key))
 //@ func (DatabaseReader).Get props C19
 //@ trusted
 //@ modifies nothing
@@ -124,9 +139,6 @@ package trie
 //@ func (*Sync).AddRawEntry props C19
 //@ requires [nonnil] s != nil && s.membatch != nil && s.membatch.batch != nil && s.requests != nil && s.queue != nil
 //@ requires [nonnil] !c19NoParent(parent) ==> s.requests[parent] != nil
-// (a pointer stored in a map refers to an allocated object: a tautology of Go's memory model; the engine bounds a value read from a map by the
-//  allocation counter at the time of the READ, which here is after `req` was allocated, so without it `ancestor` may alias the new request)
-//@ assume [stored-pointer-is-allocated] allocated(s.requests[parent])
 //@ let anc = s.requests[parent]
 //@ let linked = !c19NoParent(parent)
 //@ let known0 = hash == emptyState || in(hash, s.membatch.batch)
@@ -147,6 +159,7 @@ package trie
 //@ ensures [no-other-count-touched] forall r: *request :: { r.deps } old(allocated(r)) && r != anc ==> r.deps == old(r.deps) && c19Kids[r] == old(c19Kids)[r]
 //@ ensures [pending-requests-kept] s.requests == old(s.requests) && (forall h: common.Hash :: { in(h, s.requests) } old(in(h, s.requests)) ==> in(h, s.requests) && s.requests[h] == old(s.requests[h]))
 //@ ensures [scheduled] !known0 && !c19Known ==> in(hash, s.requests)
+//@ ensures [only-this-hash-scheduled] forall h: common.Hash :: { in(h, s.requests) } in(h, s.requests) && h != hash ==> old(in(h, s.requests))
 //@ ensures [unlinked-no-count-touched] !known0 && !c19Known && !linked ==> c19Kids == old(c19Kids) && anc.deps == old(anc.deps)
 //@ ensures [new-request] !known0 && !c19Known && !old(in(hash, s.requests)) ==> fresh(s.requests[hash]) && s.requests[hash].deps == 0 && s.requests[hash].raw &&
 //@     (linked ==> len(s.requests[hash].parents) == 1 && s.requests[hash].parents[0] == anc) && (!linked ==> len(s.requests[hash].parents) == 0)
@@ -158,9 +171,6 @@ package trie
 //@ func (*Sync).AddSubTrie props C19
 //@ requires [nonnil] s != nil && s.membatch != nil && s.membatch.batch != nil && s.requests != nil && s.queue != nil
 //@ requires [nonnil] !c19NoParent(parent) ==> s.requests[parent] != nil
-// (a pointer stored in a map refers to an allocated object: a tautology of Go's memory model; the engine bounds a value read from a map by the
-//  allocation counter at the time of the READ, which here is after `req` was allocated, so without it `ancestor` may alias the new request)
-//@ assume [stored-pointer-is-allocated] allocated(s.requests[parent])
 //@ let anc = s.requests[parent]
 //@ let linked = !c19NoParent(parent)
 //@ let known0 = root == emptyRoot || in(root, s.membatch.batch)
@@ -181,10 +191,36 @@ package trie
 //@ ensures [no-other-count-touched] forall r: *request :: { r.deps } old(allocated(r)) && r != anc ==> r.deps == old(r.deps) && c19Kids[r] == old(c19Kids)[r]
 //@ ensures [pending-requests-kept] s.requests == old(s.requests) && (forall h: common.Hash :: { in(h, s.requests) } old(in(h, s.requests)) ==> in(h, s.requests) && s.requests[h] == old(s.requests[h]))
 //@ ensures [scheduled] !known0 && !c19Known ==> in(root, s.requests)
+//@ ensures [only-this-hash-scheduled] forall h: common.Hash :: { in(h, s.requests) } in(h, s.requests) && h != root ==> old(in(h, s.requests))
 //@ ensures [unlinked-no-count-touched] !known0 && !c19Known && !linked ==> c19Kids == old(c19Kids) && anc.deps == old(anc.deps)
 //@ ensures [new-request] !known0 && !c19Known && !old(in(root, s.requests)) ==> fresh(s.requests[root]) && s.requests[root].deps == 0 && !s.requests[root].raw && s.requests[root].callback == callback &&
 //@     (linked ==> len(s.requests[root].parents) == 1 && s.requests[root].parents[0] == anc) && (!linked ==> len(s.requests[root].parents) == 0)
 //@ ensures [deps-track-children] forall r: *request :: { r.deps } old(allocated(r)) ==> (r.deps - c19Kids[r]) % 2^64 == (old(r.deps) - old(c19Kids)[r]) % 2^64
+
+// ---------------------------------------------------------------------------------------------------------------------
+// NewSync: a new scheduler starts empty (no request, empty membatch) and registers the root — with no parent and with the leaf callback it was
+// given — through AddSubTrie; nothing else is pending, and no existing request's count is touched.
+//@ func NewSync props C19
+//@ modifies all, c19Kids, c19Known
+//@ assert before call (*Sync).AddSubTrie: [root-registered-without-parent] a0 == ts && a1 == root && a3 == zero(common.Hash) && a4 == callback
+//@ assert before call (*Sync).AddSubTrie: [starts-empty] ts.database == database && ts.membatch != nil && len(ts.membatch.batch) == 0 && len(ts.membatch.order) == 0 && ts.requests != nil && len(ts.requests) == 0 && ts.queue != nil
+//@ ensures [fresh-scheduler] result != nil && fresh(result) && result.requests != nil && fresh(result.requests)
+//@ ensures [only-the-root-pending] forall h: common.Hash :: { in(h, result.requests) } in(h, result.requests) ==> h == root
+//@ ensures [no-count-touched] c19Kids == old(c19Kids) && (forall r: *request :: { r.deps } old(allocated(r)) ==> r.deps == old(r.deps))
+
+// ---------------------------------------------------------------------------------------------------------------------
+// Missing hands out queued hashes: it never forgets or adds a request and never touches the membatch (only the retrieval queue is consumed),
+// and returns at most max hashes when a maximum is given.
+//@ func (*Sync).Missing props C19
+//@ requires [nonnil] s != nil && s.queue != nil
+// (frame: no field, map or byte of the scheduler changes — `requests`, the membatch map and every request are untouched; the only hash array
+//  written is the local result list, the membatch's completion order keeps its content)
+//@ modifies all(elems(common.Hash))
+//@ loop requests invariant [at-most-max] max > 0 ==> len(requests) <= max
+//@ loop requests invariant [result-list-is-local] isnil(requests) || !old(allocated(base(requests)))
+//@ loop requests invariant [completion-order-untouched] s.membatch != nil ==> elems(s.membatch.order) == old(elems(s.membatch.order))
+//@ ensures [at-most-max] max > 0 ==> len(result) <= max
+//@ ensures [completion-order-untouched] s.membatch != nil ==> s.membatch.order == old(s.membatch.order) && elems(s.membatch.order) == old(elems(s.membatch.order))
 
 // ---------------------------------------------------------------------------------------------------------------------
 // Pending
@@ -206,10 +242,35 @@ package trie
 //@ func decodeNode props C19
 //@ nobody
 //@ modifies nothing
+// children (VERIFIED, except for the trusted frame of the leaf callback above): which children of the decoded node become requests.
+// The enumeration of the node's children (type switch over short / full node, into the local list `children`) is taken as given; the clause is
+// over the loop that turns the enumerated children into requests: a child that references another node by hash is OMITTED ONLY IF IT IS PRESENT
+// — its hash is in the membatch or the database has its key; otherwise a request for that hash is built (listing the node as its one parent,
+// with the node's callback) and appended. Being merely scheduled (in s.requests) is no reason to omit: schedule merges the parent into the
+// pending request ([merged-parent-appended]), which is what makes a second parent of a shared sub-trie wait for it.
 //@ func (*Sync).children props C19
-//@ nobody
-//@ modifies all, c19Kids, c19Known
-//@ ensures s.requests == old(s.requests) && s.membatch == old(s.membatch) && s.queue == old(s.queue) && req.data == old(req.data) && req.raw == old(req.raw)
+//@ requires [nonnil] s != nil && req != nil && s.membatch != nil && s.membatch.batch != nil
+//@ ghost at entry: c19Running := s
+//@ ghost at entry: c19Built := emptyset(common.Hash)
+//@ ghost after store hash#1: c19Built := store(c19Built, value, true)
+// construction of a child request: it lists the node as its one parent, carries the node's callback and the child's depth
+//@ assert after store hash#1: [child-request-for-the-child-hash] value == c19NodeHash(child.node)
+//@ assert after store parents#1: [child-lists-the-node] len(value) == 1 && value[0] == req
+//@ assert after store callback#1: [child-inherits-the-callback] value == req.callback
+//@ modifies all, c19Kids, c19Known, c19Running, c19Built
+//@ ensures [frame] s.requests == old(s.requests) && s.membatch == old(s.membatch) && s.queue == old(s.queue) && req.data == old(req.data) && req.raw == old(req.raw)
+// (the enumeration loop over a full node's 17 slots builds nothing; restated because the engine havocs the anchored ghosts there)
+//@ loop i invariant [nothing-built-yet] c19Built == emptyset(common.Hash)
+//@ loop requests invariant [objects] s.membatch == old(s.membatch) && s.membatch.batch == old(s.membatch.batch) && s.database == old(s.database) && s.requests == old(s.requests) && c19Running == s
+//@ loop requests invariant [frame] req.data == old(req.data) && req.raw == old(req.raw) && s.queue == old(s.queue)
+//@ loop requests invariant [index] -1 <= rangeindex && rangeindex < len(children)
+// (node bytes live in objects of their own — not inside a request — so that writing the hash of a new request does not change them)
+//@ loop requests invariant [node-bytes-are-objects] forall j: int :: { children[j] } 0 <= j && j <= rangeindex && hastype(children[j].node, hashNode) ==> base(unbox(children[j].node, hashNode)) >= 0
+//@ loop requests invariant [omitted-only-if-present] forall j: int :: { children[j] } 0 <= j && j <= rangeindex && hastype(children[j].node, hashNode) ==>
+//@     in(c19NodeHash(children[j].node), c19Built) || in(c19NodeHash(children[j].node), s.membatch.batch) || c19DBHas(s.database, elems(unbox(children[j].node, hashNode)), off(unbox(children[j].node, hashNode)), len(unbox(children[j].node, hashNode)))
+// at the normal return every enumerated child has been looked at, and the list built is what is returned
+//@ assert before return#1: [omitted-only-if-present] result1 == nil && result0 == requests && (forall j: int :: { children[j] } 0 <= j && j < len(children) && hastype(children[j].node, hashNode) ==>
+//@     in(c19NodeHash(children[j].node), c19Built) || in(c19NodeHash(children[j].node), s.membatch.batch) || c19DBHas(s.database, elems(unbox(children[j].node, hashNode)), off(unbox(children[j].node, hashNode)), len(unbox(children[j].node, hashNode))))
 
 //@ func (*Sync).Process props C19
 //@ requires [nonnil] s != nil && s.requests != nil && s.membatch != nil && s.membatch.batch != nil && s.queue != nil
@@ -217,7 +278,7 @@ package trie
 // (c19Deps0: the count as children left it — the leaf callback inside children may already have raised it for sub-tries / code it registered)
 //@ ghost after call (*Sync).children: c19Deps0 := request.deps
 //@ ghost before store data#1: c19Data := item.Data
-//@ modifies all, c19DecodeOK, c19Deps0, c19Data, c19Kids, c19Known, c19ParentDeps0
+//@ modifies all, c19DecodeOK, c19Deps0, c19Data, c19Kids, c19Known, c19ParentDeps0, c19Running, c19Built
 // (anchors count in SSA block order: store data#1 is the trie-node branch at sync.go:194, #2 the raw branch at :184)
 //@ assert before store data#1: [requested-and-unprocessed] request != nil && request == s.requests[item.Hash] && isnil(request.data) && !request.raw
 //@ assert before store data#1: [decoded-before-recorded] c19DecodeOK
